@@ -88,6 +88,8 @@ Fresh(T, f, t) ==
 
 FaultyCheck(n) ==
   \/ \E i \in DOMAIN Evs(n) : Evs(n)[i].e.ev = "store" /\ Evs(n)[i].e.err
+  \* a Redis command of the call failed, whether or not the store reported it: it is a failure of the session store all the same
+  \/ \E i \in DOMAIN Evs(n) : Evs(n)[i].e.ev = "store" /\ Evs(n)[i].e.cmdFaultHit
   \/ \E i \in DOMAIN Evs(n) : Evs(n)[i].e.ev = "jwks" /\ Evs(n)[i].e.res = "err"
   \/ \E i \in DOMAIN Evs(n) : Evs(n)[i].e.ev = "idp" /\ Evs(n)[i].e.answer \in {"fail", "failAfter"}
 
@@ -642,10 +644,24 @@ BrowseEv ==
   /\ fired' = Bump(fired, "browse:" \o E.phase)
   /\ UNCHANGED <<now, sc, flt, logins, presented, consumed, dead, codes, idtok, rtl, latest, lastUse, stored, gone, bound, lastStored, attok, chk, drift>>
 
+\* An answer changed after Check had returned it (the driver re-reads retained answers after every later check): gRPC
+\* serialises the answer after the handler returns, so under concurrency the browser can be sent another session's
+\* Location (C13, C03: the login does not come back to its own URL) or cookie (C05), or another session's tokens go upstream (C02).
+MutatedEv ==
+  /\ E.ev = "mutated"
+  /\ LET parts == {E.parts[i] : i \in DOMAIN E.parts}
+         props == (IF "location" \in parts THEN {"C13", "C03"} ELSE {})
+                    \cup (IF "cookie" \in parts THEN {"C05", "C03"} ELSE {})
+                    \cup (IF "upstream" \in parts THEN {"C02", "C14"} ELSE {})
+                    \cup (IF parts \subseteq {"body", "other"} THEN {"C15"} ELSE {})
+     IN viol' = viol \cup {[p |-> q, m |-> "AnswerStable", cause |-> "answer-changed-after-it-was-returned", sc |-> sc, n |-> E.n, at |-> l] : q \in props}
+  /\ fired' = BumpIf(fired, TRUE, "answerMutated")
+  /\ UNCHANGED <<now, sc, flt, logins, presented, consumed, dead, codes, idtok, rtl, latest, lastUse, stored, gone, bound, lastStored, attok, chk, br, drift>>
+
 Next ==
   /\ l <= Len(Trace)
   /\ l' = l + 1
-  /\ \/ Reset \/ Clock \/ Skip \/ ReqEv \/ StoreEv \/ IdpEv \/ JwksEv \/ RespEv \/ BrowseEv
+  /\ \/ Reset \/ Clock \/ Skip \/ ReqEv \/ StoreEv \/ IdpEv \/ JwksEv \/ RespEv \/ BrowseEv \/ MutatedEv
 
 Spec == Init /\ [][Next]_vars
 
